@@ -213,6 +213,11 @@ func (w *world) setupAgent() {
 	}
 	for _, p := range w.plan.PreIDs {
 		k := agent.AddedKey{PrivateKey: keys.AgentPriv(keys.KindEd, "pre:"+p.Label), Comment: p.Comment}
+		if p.Kind == "ysshcert" {
+			k.Certificate = keys.Cert(keys.CertSpec{KeyKind: keys.KindEd, KeyLabel: "pre:" + p.Label, CALabel: "foreign",
+				KeyID: `{"prins":["someone"],"transID":"00aabbccdd","reqUser":"someone","reqIP":"10.1.2.3","reqHost":"elsewhere","isFirefighter":false,"isHWKey":false,"isHeadless":false,"isNonce":false,"usage":0,"touchPolicy":1,"ver":1}`,
+				ValidBefore: ssh.CertTimeInfinity, Principals: []string{"someone"}})
+		}
 		if p.Kind == "cert" {
 			k.Certificate = keys.Cert(keys.CertSpec{KeyKind: keys.KindEd, KeyLabel: "pre:" + p.Label, CALabel: "foreign",
 				KeyID: "foreign " + p.Label, ValidBefore: ssh.CertTimeInfinity, Principals: []string{"someone"}})
@@ -426,6 +431,7 @@ type stubHandler struct {
 	auth    string
 	ncsrs   int
 	nkeys   int
+	addFail int
 	panicIn string
 	w       *world
 }
@@ -458,7 +464,7 @@ func (s *stubHandler) Generate(*csr.ReqParam) ([]csr.AgentKey, error) {
 	s.maybePanic("Generate")
 	var out []csr.AgentKey
 	for kk := 0; kk < max(1, s.nkeys); kk++ {
-		k := &stubKey{h: s}
+		k := &stubKey{h: s, idx: kk}
 		for i := 0; i < s.ncsrs; i++ {
 			k.csrs = append(k.csrs, &proto.SSHCertificateSigningRequest{
 				KeyMeta: &proto.KeyMeta{Identifier: "stub-slot"}, KeyId: fmt.Sprintf("stub-csr-%d-%d-%d", s.idx, kk, i),
@@ -472,6 +478,7 @@ func (s *stubHandler) Generate(*csr.ReqParam) ([]csr.AgentKey, error) {
 }
 
 type stubKey struct {
+	idx   int
 	h     *stubHandler
 	csrs  []*proto.SSHCertificateSigningRequest
 	added [][]byte
@@ -484,6 +491,10 @@ func (k *stubKey) CSRs() []*proto.SSHCertificateSigningRequest {
 
 func (k *stubKey) AddCertsToAgent(certs []ssh.PublicKey, _ []string) error {
 	k.h.maybePanic("AddCertsToAgent")
+	if k.h.addFail > 0 && k.idx+1 == k.h.addFail {
+		k.h.w.cur.faults = append(k.h.w.cur.faults, faultObs{seq: k.h.w.next(), site: "stub", fault: "addfail", phase: "provision", index: k.idx})
+		return errors.New("scripted refusal of the agent while adding certificates")
+	}
 	for _, c := range certs {
 		k.added = append(k.added, c.Marshal())
 	}
@@ -659,7 +670,10 @@ func (w *world) doRun(run *GRun, extra extraFault) *runObs {
 
 	var handlers []gensign.Handler
 	selectedStubPanic := run.StubPanic
-	if extra.stubPanic != "" {
+	stubAddFail := run.StubAddFail
+	if strings.HasPrefix(extra.stubPanic, "addfail:") {
+		fmt.Sscanf(extra.stubPanic, "addfail:%d", &stubAddFail)
+	} else if extra.stubPanic != "" {
 		selectedStubPanic = extra.stubPanic
 	}
 	for i, h := range run.Handlers {
@@ -670,7 +684,7 @@ func (w *world) doRun(run *GRun, extra extraFault) *runObs {
 			}
 			handlers = append(handlers, &recHandler{inner: rh, idx: i, regular: true, w: w})
 		} else {
-			st := &stubHandler{idx: i, auth: strings.TrimPrefix(h, "stub:"), ncsrs: run.StubCSRs, nkeys: run.StubKeys, panicIn: selectedStubPanic, w: w}
+			st := &stubHandler{idx: i, auth: strings.TrimPrefix(h, "stub:"), ncsrs: run.StubCSRs, nkeys: run.StubKeys, addFail: stubAddFail, panicIn: selectedStubPanic, w: w}
 			handlers = append(handlers, &recHandler{inner: st, idx: i, w: w})
 		}
 	}
